@@ -431,13 +431,13 @@ def run(tier, seed):
 
     # deeper exhaustive exploration over the operations that interact most (thorough only)
     if not quick:
-        SMALL = [ALPHABET[i] for i in (0, 1, 2, 3, 5, 6, 7, 10, 12, 13, 14, 16)]
+        SMALL = [ALPHABET[i] for i in (0, 1, 2, 3, 5, 6, 7, 12, 13, 14, 16)]
         deep = 5
 
         def dfs2(nc, model, hist, d):
             for op in SMALL:
                 h = hist + (op,)
-                R.case("history (exhaustive, 12 forms)", None)
+                R.case("history (exhaustive, 11 forms)", None)
                 mc = model.copy()
                 nc2 = step("NoteContainer history", clone(nc), mc, op, h)
                 if nc2 is None:
@@ -500,7 +500,7 @@ def run(tier, seed):
                 ops.append(("empty",))
         return ops
 
-    nseq, length = (250, 40) if quick else (6000, 60)
+    nseq, length = (250, 40) if quick else (4000, 60)
     for i in range(nseq):
         mode = i % 3
         if mode == 0:       # dense: few names, two octaves -> many collisions and removals that hit
@@ -736,7 +736,7 @@ def run(tier, seed):
         "ordered pairs of %d names (constructor and add_note)%s, %d top notes x %d names; constructors: %d chord "
         "shorthands x 35 roots, 35 interval shorthands x 35 roots x up/down, 7 numerals x %d prefixes x %d suffixes "
         "x 30 keys" % (depth, len(ALPHABET), len(starts), n_exh,
-                       "" if quick else " and depth 5 over 12 forms", nseq, length, len(pool),
+                       "" if quick else " and depth 5 over 11 forms", nseq, length, len(pool),
                        "" if quick else ", all triples of 25 names", len(tops), len(adds),
                        len(chords.chord_shorthand), len(prefixes), len(suffixes)),
         exhaustive=False)
